@@ -457,7 +457,7 @@ class NetWorld(World):
                     "bound": r.choice([None, None, None, 0, 0, 0.25, 2.0])}
         # C10: needs abs_curv on every edge, an index and prepared distances
         if self.cfg["sessions"] > 1 and self.cfg["road"] and r.random() < 0.03:
-            return {"op": "noise_net", "s": s, "from": (s + 1) % self.cfg["sessions"], "seed": r.randrange(10 ** 6)}
+            return {"op": "noise_net", "s": s, "from": (s + 1) % self.cfg["sessions"], "seed": r.randrange(10 ** 6), "ortho": r.random() < 0.5}
         if (m["index"] is None or m["prepared"] is None) and m["edges"] and r.random() < 0.15:
             # ... which the user sometimes forgets: the matching is requested on a network that is not ready
             ob = self._gen_track(r, m)
@@ -1279,6 +1279,15 @@ class NetWorld(World):
         lines = []
         for k, e in enumerate(m0["edges"]):
             g = net0.getEdge(e["id"]).geom
+            if st.get("ortho"):
+                # a simulated drive along the road first (noise across the direction of travel, no pinned
+                # point): the result is the driver's; whether noise() accepts the line is not judged
+                numpy.random.seed(st["seed"] + k)
+                _, exc = self.call(sto.noise, g, [0.2], [GaussianKernel(3.0)], sto.DISTRIBUTION_NORMAL,
+                                   sto.MODE_DISTANCE_LINEAR, False, False, [], sto.MODE_DIRECTION_ORTHO)
+                if exc is not None and not isinstance(exc, Exception):
+                    return self._unexpected("C10", exc, "noise() across an edge geometry")
+                self.probe("noise_ortho_on_edge_geometry" if exc is None else "noise_ortho_refused")
             numpy.random.seed(st["seed"] + k)
             nz, exc = self.call(sto.noise, g, [0.2], [GaussianKernel(3.0)], sto.DISTRIBUTION_NORMAL,
                                 sto.MODE_DISTANCE_LINEAR, False, False, [0, len(e["pts"]) - 1], sto.MODE_DIRECTION_XY)
